@@ -18,6 +18,11 @@
 -/
 import Lcapy.Props.C15
 import Lcapy.Proofs.MeshComplete
+/- NOTE: every theorem of this file is stated for `meshEq true …`, the mesh model with the PROPOSED patch fix-C15-c
+   (a component is identified by the graph edge that holds it).  That patch is not applied to /repo (finding C15-c,
+   known); for netlists without parallel components the code as it is prints the same equations (checked by the
+   correspondence of harness/c15.py on every run), with parallel components it does not.  The CLAIMED statement about
+   the code in /repo is `mesh_eqs_hold_partial` in Props/C15.lean. -/
 namespace Lcapy.C15
 open Lcapy.MNA Lcapy.Formulations Lcapy.StateSpace Ix
 variable {K : Type} [Field K] [DecidableEq K]
